@@ -497,6 +497,17 @@ func (fx *FuncCtx) builtinAppend(st *State, args []Val, rt types.Type, pos token
 		fx.failf("append result type")
 	}
 	if _, ok := t.T.Underlying().(*types.Slice); !ok {
+		if b, isB := t.T.Underlying().(*types.Basic); isB && b.Info()&types.IsString != 0 {
+			// append([]byte, string...): contents of the appended part are the string's bytes (not modelled: unknown)
+			s = fx.adapt(s, rt)
+			fx.decls.declareFun("str$len", []string{"Str"}, "Int")
+			sl := sx("str$len", t.s())
+			st.assume(sx(">=", sl, "0"))
+			nl := fx.lenOp("+", s.C[2], sl)
+			out := fx.makeSliceUnknown(st, rt, nl)
+			fx.trusted["append([]byte, string...): the bytes of strings are not modelled (result content unknown)"] = true
+			return out
+		}
 		fx.failf("append of %s", typeStr(t.T))
 	}
 	s = fx.adapt(s, rt)
